@@ -363,7 +363,7 @@ class Expr:
 
 
 def coq_Z(z):
-    return "(%d)" % z if z < 0 else "%d" % z
+    return "(%d)%%Z" % z
 
 
 def coq_Q(q):
@@ -1229,16 +1229,16 @@ def emit_coq(t):
     L.append("From Coq Require Import ZArith QArith List Bool.")
     L.append("Import ListNotations.")
     L.append("From TK Require Import Validate_Model.")
-    L.append("Open Scope Z_scope.")
+    L.append("Local Open Scope nat_scope.")
     L.append("")
     byid = sorted(kws.values(), key=lambda k: k["id"])
     L.append("(* keyword ids: " + ", ".join("%d %s" % (k["id"], k["ident"]) for k in byid) + " *)")
     L.append("Definition gen_kwtypes : list (kwid * vtype) :=")
-    L.append("  [" + "; ".join("(%d%%nat, %s)" % (k["id"], k["type"]) for k in byid) + "].")
+    L.append("  [" + "; ".join("(%d, %s)" % (k["id"], k["type"]) for k in byid) + "].")
     L.append("")
     L.append("Definition gen_defaults : pmap :=")
     ds = sorted((kws[d] for d in t["defaults"]), key=lambda k: k["id"])
-    L.append("  [" + ";\n   ".join("(%d%%nat, %s)" % (k["id"], coq_value(k["default"])) for k in ds) + "].")
+    L.append("  [" + ";\n   ".join("(%d, %s)" % (k["id"], coq_value(k["default"])) for k in ds) + "].")
     L.append("")
     L.append("Definition gen_stages : list stage :=")
     L.append("  [" + ";\n   ".join(coq_stage(s, kws) for s in t["stages"]) + "].")
